@@ -1,7 +1,7 @@
 """C17 configuration for ./check."""
 CFG = {
     "modules": ["VaxisModel.Props.C17"],
-    "extractors": [],
+    "extractors": ["C17"],
     "drivers": ["C17"],
     "stateful": True,
     "trivial_prefix": ("-", "bad-op"),
@@ -25,9 +25,12 @@ CFG = {
     "assumptions": ["graphemeCountInString(Value) = number of clusters (A-concat)", "uint cursor arithmetic does not wrap (guarded subtractions only)"],
     "level_text": "Proved for all histories from any starting content: textfield_refines (+ invariant n = count, cursor <= length), "
                   "textfield_callbacks_exact, textfield_cursor_column; textinput_refines (every Update/SetContent/Draw call returns - no index "
-                  "panic, no hang - and equals the ideal operation), draw_terminates. F46 and F47 were real violations, fixed in /repo.",
-    "level_note": "Validated by correspondence only: textinput's drawn cursor column (oracle applies while the text fits and offset = 0), the binding "
-                  "table itself (which key strings reach which arm: compared on 23 keys per widget, not extracted). Modelled, not verified: combining "
+                  "panic, no hang - and equals the ideal operation), draw_terminates, textinput_cursor_column (whatever the old scroll offset). "
+                  "Gen theorems: the case labels of Update's switch, its default-arm guards, the scroll-loop condition, scrolloff and the if-chain "
+                  "of HandleEvent, extracted from the source on every run, equal the tables the models dispatch on. F46, F47 and F117 were real "
+                  "violations, fixed in /repo (one commit each).",
+    "level_note": "Validated by correspondence only: that Key.String()/Key.Matches produce the strings/verdicts the tables list (C09's subject; 23 keys "
+                  "per widget are run through the real code). Modelled, not verified: combining "
                   "marks typed separately into TextField (cluster merge; cursor can exceed the count until the next clamp - see notes open items), "
                   "textinput cell contents (truncator, invisibleChar).",
     "timeout": 1500,
